@@ -450,7 +450,8 @@ fn catmull_case(ctx: &mut Ctx, index: u64, r: &mut Rng, bufs: &mut CurveBuffers)
             }
         }
         let m = cps.iter().map(|p| p.0.abs().max(p.1.abs())).fold(1.0, f64::max);
-        for mode in [GameMode::Taiko, GameMode::Osu] {
+        // the 6 px thinning of Catmull paths exists in osu! mode only
+        for mode in [GameMode::Taiko, GameMode::Osu, GameMode::Catch, GameMode::Mania] {
             let curve = Curve::new(mode, &mk(&cps, PathType::CATMULL), None, bufs);
             let path = as_path(&curve);
             let extra = if mode == GameMode::Osu { 6.0 } else { 0.0 };
@@ -485,7 +486,7 @@ fn linear_case(ctx: &mut Ctx, index: u64, r: &mut Rng, bufs: &mut CurveBuffers) 
     let untyped = r.chance(1, 3);
     let w = format!("linear{} {cps:?}", if untyped { " (untyped first point)" } else { "" });
     ctx.case(index, w.as_bytes(), |ctx| {
-        for mode in [GameMode::Osu, GameMode::Mania] {
+        for mode in [GameMode::Osu, GameMode::Mania, GameMode::Catch, GameMode::Taiko] {
             let mut pts = mk(&cps, PathType::LINEAR);
             if untyped {
                 // a path whose first control point carries no type is a straight polyline by convention
